@@ -379,6 +379,10 @@ func (w *WAL) ReadAll() (metadata []byte, state raftpb.HardState, ents []raftpb.
 					return nil, state, nil, fmt.Errorf("index out of range, corrupt data: %v-%v", up, len(ents))
 				}
 				ents = append(ents[:up], e)
+			} else {
+				// a record at or below the start index that follows records above it is a
+				// conflicting append: it truncated everything read so far
+				ents = ents[:0]
 			}
 			w.enti = e.Index
 		case stateType:
